@@ -32,15 +32,17 @@ TARGETS = ['valjean.eponine.apollo3.hdf5_reader:Reader.read_file', 'valjean.epon
 SRC = os.environ.get('VERIF_TREE', '/repo') + '/tests/eponine/tripoli4/data/gauss_E_time_mu_phi.res.ceav5'
 BOUNDS = {'quick': {'responses per listing': 2, 'energy groups': '1-3', 'second dimension': 'none, time steps (1-3) or mu zones (1-3)',
                     'printing order': 'increasing or decreasing, independently per dimension', 'scores': 'distinct positive tags, one solver-chosen cell zero or negative',
-                    'energy-integrated results': 'after every spectrum (per time step); one solver-chosen relative sigma printed as exactly zero'},
+                    'energy-integrated results': 'after every spectrum (per time step); one solver-chosen relative sigma printed as exactly zero',
+                    'mesh scores': '1-2 cells x 1-2 energy ranges x 1-3 time steps (layout of box_dyn.res.ceav5), each dimension printed increasing or '
+                                   'decreasing, with the energy-integrated and space-and-energy-integrated results of every time step'},
           'thorough': {'responses per listing': '1 (1-4 energy groups) or 2 (1 energy group)', 'energy groups': '1-4', 'second dimension': 'none, time (1-3), mu (1-3), time x mu (2x2)',
                        'printing order': 'all combinations'}}
 ASSUMPTIONS = ['listings are synthesised from the layout of the shipped example gauss_E_time_mu_phi.res.ceav5 (header, edition framing, response '
                'blocks); only spectrum responses in E, E x t, E x mu (and E x t x mu) are generated',
                'the layout (group counts, printing orders, position of the special value) is solver-chosen; the printed numbers are concrete tags',
                'relative sigma is printed in percent; error = score * sigma / 100 (literal reading of the statement, also for negative scores)']
-OUTSIDE = ['Apollo3: only the documented standard layout with <= 2 outputs, <= 2 zones, <= 3 isotopes, FLUX/KEFF/CONCEN/Absorption (h5py is a C library: layouts are enumerated, nothing is symbolic)',
-           'meshes, Green bands, keff, IFP, perturbation, sensitivity layouts', 'several editions with different results', "'not converged' results"]
+OUTSIDE = ['meshes larger than 2 cells / 2 energy ranges / 3 time steps, mesh entropy arrays', 'Apollo3: only the documented standard layout with <= 2 outputs, <= 2 zones, <= 3 isotopes, FLUX/KEFF/CONCEN/Absorption (h5py is a C library: layouts are enumerated, nothing is symbolic)',
+           'Green bands, keff, IFP, perturbation, sensitivity layouts', 'several editions with different results', "'not converged' results"]
 EXPLANATION = ('bounded-exhaustive symbolic execution (symrun + z3: solver-chosen listing layouts) of the real Tripoli-4 reader on synthetic '
                'listings built around known ground truth; every parsed number compared with the number written')
 
@@ -231,6 +233,105 @@ def make_harness(nresp, max_e, seconds):
     return harness
 
 
+# ----------------------------------------------------------------------------- scores on a mesh
+def mesh_text(name, egroups, tgroups, cells, tag0, zero_sigma_at=None):
+    """a score on a mesh, per time step: one block per energy range, the energy-integrated block, the total line"""
+    f = _fmt
+    head = ('******************************************************************************\n'
+            'RESPONSE FUNCTION : FLUX\nRESPONSE NAME : neutron_flux_response\n'
+            f'SCORE NAME : {name}\nENERGY DECOUPAGE NAME : grid_rough\n\n\n PARTICULE : NEUTRON \n'
+            '******************************************************************************\n\n'
+            '\t scoring mode : SCORE_TRACK\n\t scoring zone : \t Results on a mesh: \n\t Cell   \t  tally   \t  sigma (percent)\n\n\n')
+    out, tag, truth, integ, tot_t = [head], tag0, {}, {}, {}
+    for it, (ta, tb) in enumerate(tgroups):
+        out.append(f'\t TIME STEP NUMBER: {it}\n\t ------------------------------------\n\t\t time min. = {f(min(ta, tb))}\n'
+                   f'\t\t time max. = {f(max(ta, tb))}\n\t\t\t (in neut.cm.s^-1)\n\n')
+        for ie, (a, b) in enumerate(egroups):
+            out.append(f'Energy range (in MeV): {f(a)} - {f(b)}\n')
+            for c in cells:
+                tag += 1
+                v, sg = tag * 1e-3, 1.0 + tag % 7
+                truth[(it, ie, c)] = (v, sg)
+                out.append(f'\t ({c[0]},{c[1]},{c[2]})\t {f(v)}\t{f(sg)}\n')
+            out.append('\n')
+        out.append('\nENERGY INTEGRATED RESULTS :\n')
+        tot = 0.0
+        for c in cells:
+            tag += 1
+            v, sg = tag * 1e-3, (0.0 if zero_sigma_at == (it, c) else 2.0 + tag % 5)
+            integ[(it, c)] = (v, sg)
+            tot += v
+            out.append(f'\t ({c[0]},{c[1]},{c[2]})\t {f(v)}\t{f(sg)}\n')
+        tot_t[it] = (tot, 3.5 + it)
+        out.append(f'\nnumber of batches used: 10\t{f(tot)}\t{f(3.5 + it)}\n\n')
+    out.append('\n\n')
+    return ''.join(out), truth, integ, tot_t
+
+
+def mesh_harness(ex):
+    from valjean.eponine.tripoli4.parse import Parser
+    parts = _parts()
+    ne = 1 + ex.choice(2, 'energy-ranges')
+    nt = 1 + ex.choice(3, 'time-steps')
+    e_edges = [1e-11, 1e-3, 20.0][:ne + 1]
+    t_edges = [float(i) for i in range(nt + 1)]
+    eg = groups(e_edges, ex.flag('energy-decreasing'))
+    tg = groups(t_edges, ex.flag('time-decreasing'))
+    cells = [(0, 0, 0), (1, 0, 0)][:1 + ex.choice(2, 'cells')]
+    zs = (ex.choice(nt, 'zero-sigma-step'), cells[0]) if ex.flag('an-integrated-sigma-is-zero') else None
+    text, truth, integ, tot_t = mesh_text('mesh_0', eg, tg, cells, 100, zs)
+    tmp = tempfile.mkdtemp(prefix='verif_c10m_')
+    path = os.path.join(tmp, 'mesh.res')
+    try:
+        with open(path, 'w') as fh:
+            fh.write(parts['prefix'] + text + parts['suffix'])
+        try:
+            item = Parser(path).parse_from_index(-1).to_browser().select_by(score_name='mesh_0')
+        except Exception as e:      # noqa
+            ex.check(False, 'mesh:synthetic-listing-is-parsed', detail=f'{type(e).__name__}: {e}')
+            return
+        res = item['results']
+
+        def pos(edges, group):
+            return int(np.argmin(np.abs(np.asarray(edges) - min(group))))
+
+        def at(ds, **where):
+            axes = list(ds.bins)
+            idx = [0] * np.ndim(ds.value)
+            for k, v in where.items():
+                idx[axes.index(k)] = v
+            return float(np.asarray(ds.value)[tuple(idx)]), float(np.asarray(ds.error)[tuple(idx)])
+
+        def close(got, want):
+            v, sg = want
+            return bool(np.isclose(got[0], v, rtol=1e-6, atol=1e-12) and np.isclose(got[1], v * sg / 100, rtol=1e-5, atol=1e-12))
+        sc = res['score']
+        ok_bins = all(len(sc.bins[k]) == len(ed) and np.allclose(np.asarray(sc.bins[k], dtype=float), ed, rtol=1e-6)
+                      for k, ed in (('e', e_edges), ('t', t_edges)))
+        ex.check(ok_bins, 'mesh:energy-and-time-bins-are-the-printed-boundaries-in-increasing-order')
+        ex.check(np.asarray(sc.value).size == len(truth) and
+                 all(close(at(sc, u=c[0], e=pos(e_edges, eg[ie]), t=pos(t_edges, tg[it])), w) for (it, ie, c), w in truth.items()),
+                 'mesh:every-score-sits-in-the-cell-energy-range-and-time-step-it-was-printed-under')
+        ei = res.get('score_eintegrated')
+        ex.check(ei is not None and np.asarray(ei.value).size == len(integ) and
+                 all(close(at(ei, u=c[0], t=pos(t_edges, tg[it])), w) for (it, c), w in integ.items()),
+                 'mesh:every-energy-integrated-result-sits-in-its-cell-and-time-step')
+        if ei is not None:
+            ex.check(np.allclose(np.asarray(ei.bins['t'], dtype=float), t_edges) and
+                     np.allclose(np.asarray(ei.bins['e'], dtype=float), [e_edges[0], e_edges[-1]]), 'mesh:integrated-results-carry-the-printed-boundaries')
+        se = res.get('score_seintegrated')
+        ex.check(se is not None and np.asarray(se.value).size == len(tot_t) and
+                 all(close(at(se, t=pos(t_edges, tg[it])), w) for it, w in tot_t.items()),
+                 'mesh:every-space-and-energy-integrated-result-sits-in-its-time-step')
+    finally:
+        shutil.rmtree(tmp, ignore_errors=True)
+
+
+def _job_mesh(timeout_ms, seed=0):
+    return run_sym('x', mesh_harness, timeout_ms=timeout_ms, seed=seed, max_paths=1000000,
+                   require_checks=['mesh:every-energy-integrated-result-sits-in-its-cell-and-time-step'])
+
+
 # ----------------------------------------------------------------------------- Apollo3 (HDF5) half
 ISOTOPES = ['U235', 'U238', 'Xe135']
 
@@ -349,15 +450,17 @@ def jobs(tier):
     if tier == 'quick':
         return [(f'{s}-r1', _job, dict(nresp=1, max_e=3, seconds=[s], timeout_ms=t)) for s in ('none', 'time', 'mu')] + \
                [('mixed-r2', _job, dict(nresp=2, max_e=1, seconds=['none', 'time'], timeout_ms=t)),
-                ('apollo3', _job_apollo, dict(timeout_ms=t))]
+                ('apollo3', _job_apollo, dict(timeout_ms=t)), ('mesh', _job_mesh, dict(timeout_ms=t))]
     return [(f'{s}-r1', _job, dict(nresp=1, max_e=4, seconds=[s], timeout_ms=t)) for s in ('none', 'time', 'mu')] + \
            [('mixed-r2', _job, dict(nresp=2, max_e=1, seconds=['none', 'time', 'mu'], timeout_ms=t)),
-            ('apollo3', _job_apollo, dict(timeout_ms=t))]
+            ('apollo3', _job_apollo, dict(timeout_ms=t)), ('mesh', _job_mesh, dict(timeout_ms=t))]
 
 
 def replay(rp):
     if rp['job'] == 'apollo3':
         return replay_sym(apollo_harness, rp['inputs'])
+    if rp['job'] == 'mesh':
+        return replay_sym(mesh_harness, rp['inputs'])
     for j in jobs('thorough') + jobs('quick'):
         if j[0] == rp['job']:
             p = j[2]
